@@ -441,6 +441,9 @@ def sweep(rng, base):
                 xors = [rng.weighted([(1, 1), (0x80, 1), (0xFF, 1), (rng.randrange(1, 256), 2)])]
                 if cls in ("ftr_size", "hdr_size", "hdr_version", "attr_type", "tag") and b.file[off]:
                     xors.append(b.file[off])        # directed: the byte becomes 0 (e.g. tag size 16 -> 0)
+                if cls == "ftr_size" and b.file[off] == 16:
+                    # directed: a shorter tag length (a prefix of the real tag must not authenticate)
+                    xors += [16 ^ v for v in (4, 8, 12, 15, 1)]
                 for x in dict.fromkeys(xors):
                     c = copy.deepcopy(base)
                     c["tamper"] = {"kind": "file", "cls": cls, "off": off, "xor": x}
